@@ -1170,6 +1170,48 @@ func (tb *TermBuilder) escapes(a *ssa.Alloc) bool {
 
 func (tb *TermBuilder) callTerm(c *ssa.CallCommon, v ssa.Value) *Term {
 	key, fn, obj := tb.P.CalleeKey(c)
+	// a call through a function value that is known to be one particular function (read from a table of constants):
+	// the call of that function; a parameterless wrapper `func() T { return g() }` stands for g()
+	if key == "dyn" && !c.IsInvoke() {
+		if ft := tb.Of(c.Value); ft.Op == "fn" {
+			if target, ok := ft.Val.(*ssa.Function); ok && target.Signature.Recv() == nil {
+				for depth := 0; depth < 3; depth++ {
+					if len(target.Params) != 0 || len(target.Blocks) != 1 || !tb.P.IsSubject(target) {
+						break
+					}
+					ret, isRet := target.Blocks[0].Instrs[len(target.Blocks[0].Instrs)-1].(*ssa.Return)
+					if !isRet || len(ret.Results) != 1 {
+						break
+					}
+					rv := ret.Results[0]
+					nConv := 0
+					for {
+						if mi, isMI := rv.(*ssa.MakeInterface); isMI {
+							rv = mi.X
+							nConv++
+							continue
+						}
+						if ci, isCI := rv.(*ssa.ChangeInterface); isCI {
+							rv = ci.X
+							nConv++
+							continue
+						}
+						break
+					}
+					inner, isCall := rv.(*ssa.Call)
+					if !isCall || len(inner.Call.Args) != 0 || inner.Call.StaticCallee() == nil || len(target.Blocks[0].Instrs) != 2+nConv {
+						break
+					}
+					target = inner.Call.StaticCallee()
+				}
+				var args []*Term
+				for _, a := range c.Args {
+					args = append(args, tb.Of(a))
+				}
+				return &Term{Op: "call", Name: FuncName(target), Args: args, Callee: target, Obj: target.Object(), Val: v}
+			}
+		}
+	}
 	var args []*Term
 	if c.IsInvoke() {
 		args = append(args, tb.Of(c.Value))
